@@ -483,6 +483,12 @@ def run_case(prop, case):
                   f"(post-processing {sorted(case['post'])})", field=q)
         if finite:
             am = min(range(len(opt.scores)), key=opt.scores.__getitem__)
+            if opt.scores.count(opt.scores[am]) == 1:
+                bp = dict(opt.best.get("params", {}))
+                want = dict(opt.param_choices[am])
+                want["method"] = opt.method_choices[am]
+                if bp != want:
+                    V("best-params-of-another-trial", f"opt.best['params']={bp} but the arg-min trial #{am} was run with {want}")
             rec = (opt.costs_flops[am], opt.costs_write[am], opt.costs_size[am])
             if rec != (st["flops"], st["write"], st["size"]):
                 V("trial-record-differs-from-tree", f"costs_*[argmin scores]={rec} but returned tree reports "
